@@ -6,37 +6,71 @@
    event, the outputs of that step (produce requests handed to the client, timers, outcomes of the callers'
    Deferreds).  All theorems hold for EVERY configuration c (acks 0/1/-1, any batching thresholds, any attempt limit),
    every initial client state and EVERY event list evs (user calls, client results incl. error codes, failed
-   payloads, cancellations, timers, metadata changes, stop) - no bound on anything. *)
+   payloads, cancellations, timers, metadata changes, stop) - no bound on anything - that is HONEST
+   (Proofs/ProducerC01Spec.v: honest): every result the client delivers accounts for every payload of the request
+   (no EResultOmit event: a broker that leaves a partition out of its response is outside the fault model of the
+   property; the model then does what the code does - see C01_omitted_partition_strands), and building / handing
+   over a produce request does not raise (no EBroken true event: known finding F-C01-5, see
+   C01_resolved_when_quiescent_refuted_build_raises). *)
 From AV Require Import Base.Util Model.Producer Model.ProducerCompose Proofs.ProducerC01Spec Proofs.ProducerC01Thm
   Proofs.ProducerC01Compose.
 
 (* No send fires twice: the ids that received an outcome, in firing order, are pairwise distinct. *)
 Theorem C01_at_most_once : forall c has_t api0 cache0 evs s tr,
-  run c (init_state has_t api0 cache0) evs = (s, tr) -> NoDup (fired tr).
+  honest evs -> run c (init_state has_t api0 cache0) evs = (s, tr) -> NoDup (fired tr).
 Proof. exact at_most_once. Qed.
 Print Assumptions C01_at_most_once.
 
 (* No batch in flight, nothing queued (hence no retry timer): every accepted send has fired.
    With C01_at_most_once: exactly once. *)
 Theorem C01_resolved_when_quiescent : forall c has_t api0 cache0 evs s tr,
-  run c (init_state has_t api0 cache0) evs = (s, tr) -> quiescent s ->
+  honest evs -> run c (init_state has_t api0 cache0) evs = (s, tr) -> quiescent s ->
   forall x, In x (accepted 0 evs) -> In (s_id x) (fired tr).
 Proof. exact resolved_when_quiescent. Qed.
 Print Assumptions C01_resolved_when_quiescent.
+
+(* F-C01-5 (known finding): when building the message set or handing the request to the client raises (EBroken true:
+   a codec whose library is missing, send_produce_request raising synchronously) the batch ends and the sends riding
+   on its payloads never fire: the statement above is FALSE without the honesty hypothesis. *)
+Theorem C01_resolved_when_quiescent_refuted_build_raises :
+  exists c has_t api0 cache0 evs s tr,
+    run c (init_state has_t api0 cache0) evs = (s, tr) /\ quiescent s /\
+    exists x, In x (accepted 0 evs) /\ ~ In (s_id x) (fired tr).
+Proof.
+  exists {| c_acks := 1; c_n := 1; c_b := 1; c_max := 3 |}, false, 1, [(0, (0, true))], [EBroken true; ESend 0 0 1 5].
+  eexists; eexists. split; [vm_compute; reflexivity|]. split; [vm_compute; auto|].
+  eexists; split; [left; reflexivity|]. vm_compute. intros [].
+Qed.
+Print Assumptions C01_resolved_when_quiescent_refuted_build_raises.
+(* Outside the honest-broker fault model (no finding): a response that omits a partition ends the batch, and the
+   sends of the omitted payload never fire - the model does exactly what the code does. *)
+Theorem C01_omitted_partition_strands :
+  exists c has_t api0 cache0 evs s tr,
+    run c (init_state has_t api0 cache0) evs = (s, tr) /\ quiescent s /\
+    exists x, In x (accepted 0 evs) /\ ~ In (s_id x) (fired tr).
+Proof.
+  exists {| c_acks := 1; c_n := 2; c_b := 0; c_max := 3 |}, false, 1, [(0, (0, true))],
+         [ESend 0 0 1 5; ESend 0 1 1 5; EResultOmit (VResp [((0, 0), 0, 42)])].
+  eexists; eexists. split; [vm_compute; reflexivity|]. split; [vm_compute; auto|].
+  exists {| s_id := 1; s_topic := 0; s_choice := 1; s_cnt := 1; s_bytes := 5 |}. split; [vm_compute; auto|].
+  vm_compute. intros [X|[]]. discriminate.
+Qed.
+Print Assumptions C01_omitted_partition_strands.
 
 (* A Deferred fires with a ProduceResponse (t, p, err, off) only if acks <> 0, err = 0, the event of that step is
    the client's result v (EResult v, or the result the cancelled request delivers inside stop()) and v carries a
    response for (t, p) with error 0 and that offset; the MOST RECENT produce request handed to the client before
    this step has a payload for (t, p) whose message list contains exactly the messages of that send as one
-   contiguous run in order; and t is the topic the send was submitted for. *)
+   contiguous run in order; t is the topic the send was submitted for and p the partition the partitioner chose for
+   it (s_choice: an oracle read back from the implementation; C18 is about the partitioners). *)
 Theorem C01_success_truthful : forall c has_t api0 cache0 evs s tr tr1 e outs tr2 sid t p err off,
-  run c (init_state has_t api0 cache0) evs = (s, tr) -> tr = tr1 ++ (e, outs) :: tr2 ->
+  honest evs -> run c (init_state has_t api0 cache0) evs = (s, tr) -> tr = tr1 ++ (e, outs) :: tr2 ->
   In (OOutcome sid (OResp t p err off)) outs ->
   c_acks c <> 0 /\ err = 0 /\
   exists v pls ms x,
     value_of e = Some v /\ acked_with v (t, p) off /\
     last_produce tr1 = Some pls /\ In ((t, p), ms) pls /\
-    In x (accepted 0 evs) /\ s_id x = sid /\ s_topic x = t /\ contiguous x ms.
+    In x (accepted 0 evs) /\ s_id x = sid /\ s_topic x = t /\ s_choice x = p /\ contiguous x ms.
 Proof. exact success_truthful. Qed.
 Print Assumptions C01_success_truthful.
 
@@ -44,7 +78,7 @@ Print Assumptions C01_success_truthful.
    over (an empty result, or FailedPayloadsError whose failed payloads do not include this one) and that request
    carried the messages of the send, contiguous and in order, in a payload of the send's topic. *)
 Theorem C01_success_none_truthful : forall c has_t api0 cache0 evs s tr tr1 e outs tr2 sid,
-  run c (init_state has_t api0 cache0) evs = (s, tr) -> tr = tr1 ++ (e, outs) :: tr2 ->
+  honest evs -> run c (init_state has_t api0 cache0) evs = (s, tr) -> tr = tr1 ++ (e, outs) :: tr2 ->
   In (OOutcome sid ONone) outs ->
   c_acks c = 0 /\
   exists v pls p ms x,
@@ -56,21 +90,34 @@ Print Assumptions C01_success_none_truthful.
 (* Whatever else makes a Deferred fire - a broker error code (also when it persists until the attempt limit), a
    failed payload (dropped connection, timeout), a client-side Kafka error, an unroutable topic or failed
    partition lookup, cancel(), stop(), bad arguments - the outcome is a failure: if the event of the step does not
-   acknowledge a payload of that send's topic without error, the outcome is OFail. *)
+   acknowledge ANY payload of that send's topic without error, the outcome is OFail (a coarse form; the next theorem
+   looks only at the send's own payload). *)
 Theorem C01_failure_is_failure : forall c has_t api0 cache0 evs s tr tr1 e outs tr2 sid oc,
-  run c (init_state has_t api0 cache0) evs = (s, tr) -> tr = tr1 ++ (e, outs) :: tr2 ->
+  honest evs -> run c (init_state has_t api0 cache0) evs = (s, tr) -> tr = tr1 ++ (e, outs) :: tr2 ->
   In (OOutcome sid oc) outs ->
   (forall x p, In x (accepted 0 evs) -> s_id x = sid -> acks_event c e (s_topic x, p) = false) ->
   exists k flag, oc = OFail k flag.
 Proof. exact failure_is_failure. Qed.
 Print Assumptions C01_failure_is_failure.
 
+(* Sharper: only the send's OWN payload counts - if the event of the step does not acknowledge the payload of the most
+   recent request that carries this send's messages, the outcome is a failure, whatever it says about other
+   partitions of the same topic. *)
+Theorem C01_failure_is_failure_own : forall c has_t api0 cache0 evs s tr tr1 e outs tr2 sid oc,
+  honest evs -> run c (init_state has_t api0 cache0) evs = (s, tr) -> tr = tr1 ++ (e, outs) :: tr2 ->
+  In (OOutcome sid oc) outs ->
+  (forall pls x p ms, last_produce tr1 = Some pls -> In x (accepted 0 evs) -> s_id x = sid ->
+                      In ((s_topic x, p), ms) pls -> contiguous x ms -> acks_event c e (s_topic x, p) = false) ->
+  exists k flag, oc = OFail k flag.
+Proof. exact failure_is_failure_own. Qed.
+Print Assumptions C01_failure_is_failure_own.
+
 (* The produce attempts of the batch are used up: whatever the client answers now (error codes again, failed
    payloads, a Kafka error, nothing), every send of the batch that has not fired yet fires in this very step - by
    C01_failure_is_failure as a failure unless that answer acknowledges it.  (Same when the producer is stopping:
    stop() leaves no send outstanding, see ex_stop and C01_resolved_when_quiescent.) *)
 Theorem C01_limit_resolves : forall c has_t api0 cache0 evs s tr pls cur v s' o,
-  run c (init_state has_t api0 cache0) evs = (s, tr) -> ph s = Sending pls cur -> c_max c <= attempts s ->
+  honest evs -> run c (init_state has_t api0 cache0) evs = (s, tr) -> ph s = Sending pls cur -> c_max c <= attempts s ->
   result_ok c cur v = true -> step c s (EResult v) = (s', o) ->
   forall x, In x (all_sends pls) -> In (s_id x) (outstanding s) -> In (s_id x) (oids o).
 Proof. exact limit_resolves. Qed.
@@ -90,6 +137,17 @@ Theorem C01_composed_truthful : forall c has_t api0 cache0 ces s lg tr tr1 e out
     log_of lg (t, p) = pre ++ ms ++ post /\ Z.of_nat (length pre) = off.
 Proof. exact composed_truthful. Qed.
 Print Assumptions C01_composed_truthful.
+
+(* ... and with acks = 0: a Deferred fires with None only if acks = 0 and the most recent request carried the messages
+   of that send in a payload that the cluster was given (its plan entry is not "lost on the way": the request reached
+   a broker; with acks = 0 nothing more can be known). *)
+Theorem C01_composed_none_truthful : forall c has_t api0 cache0 ces s lg tr tr1 e outs tr2 sid,
+  crun c (init_state has_t api0 cache0) [] ces = (s, lg, tr) -> tr = tr1 ++ (e, outs) :: tr2 ->
+  In (OOutcome sid ONone) outs ->
+  c_acks c = 0 /\
+  exists x p ms, In x (accepted 0 (map fst tr)) /\ s_id x = sid /\ contiguous x ms /\ served c tr1 x p ms.
+Proof. intros c h a ca ces s lg tr tr1 e outs tr2 sid H E I. eapply composed_none; eauto. Qed.
+Print Assumptions C01_composed_none_truthful.
 
 (* ---- non-vacuity: concrete runs reaching the situations the theorems speak about ---- *)
 Definition cfg1 (acks mx : Z) := {| c_acks := acks; c_n := 1; c_b := 1; c_max := mx |}.
